@@ -1,1 +1,121 @@
-//! document builders and comparers (filled in per property)
+//! Document builders and observers shared by the format round-trip engines.
+
+use icy_engine::{AttributedChar, BitFont, Buffer, IceMode, TextAttribute, TextPane};
+use serde_json::{json, Value};
+
+#[derive(Clone, Copy, Debug, PartialEq, Eq, Hash)]
+pub struct Cell {
+    pub ch: u32,
+    pub fg: u32,
+    pub bg: u32,
+    pub blink: bool,
+    pub bold: bool,
+    pub page: usize,
+}
+
+impl Cell {
+    pub const fn new(ch: u32, fg: u32, bg: u32) -> Cell {
+        Cell { ch, fg, bg, blink: false, bold: false, page: 0 }
+    }
+    pub const fn blink(mut self) -> Cell {
+        self.blink = true;
+        self
+    }
+    pub const fn bold(mut self) -> Cell {
+        self.bold = true;
+        self
+    }
+    pub const fn page(mut self, p: usize) -> Cell {
+        self.page = p;
+        self
+    }
+    pub fn attr(&self) -> TextAttribute {
+        let mut a = TextAttribute::new(self.fg, self.bg);
+        a.set_is_blinking(self.blink);
+        a.set_is_bold(self.bold);
+        a.set_font_page(self.page);
+        a
+    }
+    pub fn to_char(&self) -> AttributedChar {
+        AttributedChar::new(char::from_u32(self.ch).unwrap_or('?'), self.attr())
+    }
+    pub fn json(&self) -> Value {
+        json!({"ch": self.ch, "fg": self.fg, "bg": self.bg, "blink": self.blink, "bold": self.bold, "page": self.page})
+    }
+}
+
+pub fn put(buf: &mut Buffer, x: i32, y: i32, c: &Cell) {
+    buf.layers[0].set_char((x, y), c.to_char());
+}
+
+/// what a cell shows: character, displayed colours (bold folded into the bright foreground), blink, font page
+#[derive(Clone, Copy, Debug, PartialEq, Eq, Hash)]
+pub struct Shown {
+    pub ch: u32,
+    pub fg: (u8, u8, u8),
+    pub bg: (u8, u8, u8),
+    pub blink: bool,
+    pub page: usize,
+    pub visible: bool,
+}
+
+pub fn shown_of(buf: &Buffer, ch: AttributedChar) -> Shown {
+    let a = ch.attribute;
+    let mut fg = a.get_foreground();
+    if a.is_bold() && fg < 8 {
+        fg += 8;
+    }
+    Shown {
+        ch: ch.ch as u32,
+        fg: buf.palette.get_rgb(fg),
+        bg: buf.palette.get_rgb(a.get_background()),
+        blink: a.is_blinking(),
+        page: a.get_font_page(),
+        visible: ch.is_visible(),
+    }
+}
+
+pub fn shown(buf: &Buffer, x: i32, y: i32) -> Shown {
+    shown_of(buf, buf.get_char((x, y)))
+}
+
+pub fn shown_json(s: &Shown) -> Value {
+    json!({"ch": s.ch, "fg": [s.fg.0, s.fg.1, s.fg.2], "bg": [s.bg.0, s.bg.1, s.bg.2], "blink": s.blink, "page": s.page, "visible": s.visible})
+}
+
+pub fn new_buffer(w: i32, h: i32, ice: IceMode) -> Buffer {
+    let mut b = Buffer::new((w, h));
+    b.ice_mode = ice;
+    b
+}
+
+/// a synthetic 8 x h font whose glyph g row r is (g*seed ^ 37r): every byte value occurs
+pub fn synth_font(name: &str, h: u8, seed: u8) -> BitFont {
+    let mut data = Vec::with_capacity(256 * h as usize);
+    for g in 0..256usize {
+        for r in 0..h as usize {
+            data.push((g as u8).wrapping_mul(seed | 1) ^ (37usize.wrapping_mul(r) as u8) ^ seed);
+        }
+    }
+    BitFont::create_8(name, 8, h, &data)
+}
+
+pub fn font_glyph_bytes(f: &BitFont) -> Vec<u8> {
+    let mut v = Vec::new();
+    for g in 0..f.length.max(0) as u32 {
+        if let Some(gl) = char::from_u32(g).and_then(|c| f.get_glyph(c)) {
+            v.extend_from_slice(&gl.data);
+        } else {
+            v.push(0xEE);
+        }
+    }
+    v
+}
+
+pub fn ice_name(m: IceMode) -> &'static str {
+    match m {
+        IceMode::Blink => "blink",
+        IceMode::Ice => "ice",
+        IceMode::Unlimited => "unlimited",
+    }
+}
